@@ -94,6 +94,7 @@ Definition event_eqb (a c : event) : bool :=
   | Escaped x, Escaped y => x =? y
   | AccessLog x, AccessLog y => ctx_eqb x y
   | UpstreamClose, UpstreamClose => true
+  | ClientFlush, ClientFlush => true
   | ClientShutdown, ClientShutdown => true
   | ClientClose, ClientClose => true
   | _, _ => false
@@ -114,7 +115,7 @@ Inductive case :=
 (* chain order after load + instantiate: pids of HttpProxyPlugin.plugins.values() *)
 | COrder (basic_auth : option bytes) (requested : list ptable) (pids : list N)
 (* one whole connection *)
-| CRun (agent : bytes) (disable : list bytes) (basic_auth : option bytes) (requested : list ptable)
+| CRun (agent : bytes) (disable : list bytes) (final_flush : bool) (basic_auth : option bytes) (requested : list ptable)
        (c0 : ctx) (steps : list step) (expected : log).
 
 Definition check_case (c : case) : bool :=
@@ -122,15 +123,15 @@ Definition check_case (c : case) : bool :=
   | CAuth code lines accepted => Bool.eqb (auth_ok code (headers_of_lines lines)) accepted
   | CAuthCode ba code => option_eqb bytes_eqb (auth_code_of (Some ba)) (if is_empty ba then None else Some code)
   | COrder ba requested pids => list_eqb N.eqb (map pid (plugins_of [] ba requested)) pids
-  | CRun agent disable ba requested c0 steps expected =>
-      list_eqb event_eqb (run_conn (mkConfig agent disable) (plugins_of agent ba requested) c0 steps) expected
+  | CRun agent disable ff ba requested c0 steps expected =>
+      list_eqb event_eqb (run_conn (mkConfig agent disable ff) (plugins_of agent ba requested) c0 steps) expected
   end.
 
 (* model output, for replay files *)
 Definition run_case (c : case) : log :=
   match c with
-  | CRun agent disable ba requested c0 steps _ =>
-      run_conn (mkConfig agent disable) (plugins_of agent ba requested) c0 steps
+  | CRun agent disable ff ba requested c0 steps _ =>
+      run_conn (mkConfig agent disable ff) (plugins_of agent ba requested) c0 steps
   | _ => []
   end.
 
@@ -143,7 +144,7 @@ Fixpoint first_diff (a c : log) (i : N) : option N :=
   end.
 Definition diff_case (c : case) : option (N * option event * N * N) :=
   match c with
-  | CRun _ _ _ _ _ _ expected =>
+  | CRun _ _ _ _ _ _ _ expected =>
       let m := run_case c in
       match first_diff m expected 0 with
       | Some i => Some (i, nth_error m (N.to_nat i), N.of_nat (length m), N.of_nat (length expected))
